@@ -65,7 +65,7 @@ theorem keep_start (s : St) (k : Nat) (r : Rec) (force : Bool) : Keep s (start s
       | some y =>
         simp only []
         have h2 : Keep s1 (modG s1 r.gen fun x =>
-            { x with insts := x.insts ++ [{ rid := r.id, data := r.data, waitOn := x.last }], last := some y.insts.length }) := by
+            { x with insts := x.insts ++ [{ rid := r.id, data := r.data, waitOn := x.last, cancelled := s.ctx == some 0 }], last := some y.insts.length }) := by
           apply keep_modG
           intro y'
           exact ⟨rfl, fun i x hx => ⟨x, getElem?_append_one _ _ _ _ hx, rfl, rfl⟩⟩
@@ -161,13 +161,21 @@ theorem keep_execOp (s : St) (op : Op) : Keep s (execOp s op).1 := by
   | getKey k => simp only [execOp]; split <;> exact Keep.refl s
   | getKeys => exact Keep.refl s
   | getKeysWithData => exact Keep.refl s
-  | resetRoutine k => exact keep_resetKey s k
-  | restartRoutine k => exact keep_restartKey s k
-  | resetAll =>
+  | resetRoutine k cs =>
+    simp only [execOp]
+    split
+    · exact keep_resetKey s k
+    · exact Keep.refl s
+  | restartRoutine k cs =>
+    simp only [execOp]
+    split
+    · exact keep_restartKey s k
+    · exact Keep.refl s
+  | resetAll cs =>
     simp only [execOp]
     rw [foldl_fst resetAllStep (fun s k => (resetKey s k).1) (fun _ _ => rfl)]
     exact foldl_keep _ keep_resetKey _ _
-  | restartAll =>
+  | restartAll cs =>
     simp only [execOp]
     rw [foldl_fst restartAllStep (fun s k => (restartKey s k).1) (fun _ _ => rfl)]
     exact foldl_keep _ keep_restartKey _ _
